@@ -294,3 +294,68 @@ PROPS["C37"] = dict(
     allowed_axioms=["ClassicalDedekindReals.sig_not_dec", "ClassicalDedekindReals.sig_forall_dec",
                     "FunctionalExtensionality.functional_extensionality_dep", "Classical_Prop.classic"],
 )
+
+PROPS["C33"] = dict(
+    corr_module="Corr.C33",
+    streams={
+        "norm": dict(runner="C33_run", in_t="C33_in", out_t="C33_out", shard=80, imports=["Model.Text"]),
+        "trunc": dict(runner="C33_trunc_run", in_t="C33_trunc_in", out_t="(N * bool)", shard=250, imports=["Model.Text"]),
+    },
+    n_quick=1000, n_thorough=30000,
+    level_text="Unbounded theorems over a line-by-line model of text::normalize_text and text::truncate_at_grapheme_boundary (strings = lists of code points, exact UTF-8 byte widths, every limit incl. 0 and usize::MAX; NFKC, is_control, is_whitespace and grapheme segmentation are arbitrary functions constrained only by: ' ' and '\\n' are whitespace, ' ' is not a control character, the segmentation is a partition into non-empty pieces). For ALL inputs: no control character but '\\n' (no '\\r', no '\\t'), no leading whitespace, every whitespace character is ' ' or '\\n' and no two are adjacent (no double spaces, no blank lines), the output is the first k>=1 whole graphemes of the trimmed text (ends on a grapheme boundary, never empty), has at most `limit` bytes unless it is the first grapheme alone, truncated=false means nothing was cut and truncated=true means the next grapheme does not fit; truncate_at_grapheme_boundary returns a grapheme boundary, len(s) when s fits, at most limit unless the first grapheme alone is longer, and the next boundary exceeds the limit; an untruncated output that NFKC leaves unchanged is a fixed point (same limit and any limit it fits in). 'Output is NFKC', unconditional idempotence and 'no trailing whitespace' are REFUTED as stated and proved outside two narrow known classes.",
+    level_note="Partial (Unicode oracles): the model cannot express facts about the NFKC tables, so 'the output is NFKC' is only reduced, not proved: every failure that goes with a removed control character is in the known class F-C33-1 (nfkc-shielded-by-removed-control: the control filter runs after NFKC; \"a\\u{1}\\u{301} b\" -> \"a\\u{301} b\" -> second pass \"\\u{e1} b\"), and idempotence of untruncated outputs is proved from nfkc(out) = out alone; that outputs are NFKC when no control character was removed is checked on every generated case by the harness (different class tag, would be a VIOLATION). F-C33-2 (trailing-whitespace-after-truncation: trimming runs before truncation; (\"ab cd\", 3) -> \"ab \") is exact: an output has trailing whitespace iff truncated and cut right after ' ' / '\\n'. Neither is repaired. Trusted: Coq kernel + vm_compute; hand-written model of src/text.rs tied by differential runs (first pass, second pass, truncation flag, both class predicates, byte index of truncate_at_grapheme_boundary) with the oracle tables computed per case by the same crates the implementation uses (unicode-normalization 0.1.25, unicode-segmentation 1.12.0, std char predicates); harness.",
+    rule="strings of 0-22 pieces in 7 styles (prose; whitespace-heavy with tabs, NBSP, U+1680, U+2000-200A, U+2028/2029, U+3000, CR/LF/CRLF mixes and blank lines; control-heavy with C0/C1/DEL/NEL placed between bases and combining marks / Hangul jamo; Unicode mix of ligatures, full-width, superscripts, emoji ZWJ sequences, flags, keycaps, Hangul L/V/T and syllables, Thai/Devanagari clusters, 1-4 byte code points incl. U+7FF/U+800/U+FFFF/U+10000/U+10FFFF; tiny; blank-only; long graphemes) plus 31 fixed cases (recorded witnesses, the crate's unit tests, edge cases); "
+         "limits 0, 1, 2-4, 1-64, len-1, len, len+1, uniform in [0, len+2], usize::MAX where len is the byte length of the full normalization; "
+         "per case: first pass, second pass on its text, tables = NFKC of input and of output, grapheme counts of the trimmed text of each pass (taken from normalize_text(x, usize::MAX) itself), control / whitespace code points; "
+         "compared: exact code points + truncation flag of both passes, known_shield / known_trailing against the harness's copies, oracle hypotheses hold on the tables, std_is_control / std_is_whitespace agree with Rust on every code point involved; "
+         "second stream: truncate_at_grapheme_boundary byte index on the same kind of strings; property oracle checks every clause of the property text on the implementation's output with the Unicode crates directly (expectations beyond the text -- maximal cut, meaning of the truncation flag, None only for blank input -- are pinned by the model comparison and only tagged 'beyond-text:'); "
+         "non-trivial = normalization changed the input (or returned None for a non-empty input) / the string is longer than the limit; distinct by BLAKE3 of (input, limit)",
+    trusted_base=["NFKC, char::is_control, char::is_whitespace and extended grapheme segmentation are Section variables in the theorems; in the correspondence run they are finite tables of the real crate outputs for exactly the strings of each case (defaults outside the tables: identity, one grapheme per code point, false)",
+                  "str::len modelled as the sum of UTF-8 widths (1/2/3/4 bytes by code point range); `consumed + grapheme.len()` cannot overflow (bounded by the string length)",
+                  "the cases are transmitted as hex UTF-8 and decoded in Corr/C33.v (utf8_dec); a decoding error would show as a mismatch"],
+    assumptions=["oracle hypotheses (each theorem lists the ones it uses): is_whitespace ' ' = is_whitespace '\\n' = true, is_control ' ' = false, concat (graphemes s) = s, no empty grapheme; shown satisfiable (C33_hypotheses_satisfiable) and re-checked on the real tables of every case (hyp_ok)",
+                 "'ends on a grapheme boundary' and 'first grapheme' refer to the segmentation of the trimmed text that is being truncated",
+                 "known finding F-C33-1: output not NFKC / second pass differs when a removed control character had shielded a composition or reordering (known_shield = control removed && nfkc(out) <> out)",
+                 "known finding F-C33-2: trailing whitespace when the cut falls right after a whitespace grapheme (known_trailing = truncated && last char is whitespace)",
+                 "NFKC-ness of outputs when no control character was removed rests on Unicode table facts outside the model; checked per case by the harness only"],
+    allowed_axioms=[],
+)
+
+PROPS["C12"] = dict(
+    corr_module="Corr.C12",
+    streams={
+        "decide": dict(runner="C12_decide_run", in_t="C12_decide_in", out_t="C12_decide_out", shard=400),
+        "json": dict(runner="C12_json_run", in_t="C12_json_in", out_t="C12_json_out", shard=800),
+        "apply": dict(runner="C12_apply_run", in_t="C12_apply_in", out_t="C12_apply_out", shard=12),
+    },
+    level_text="Unbounded theorems over the line-by-line model of src/memvid/acl.rs and the ACL stage of its four call sites "
+               "(any JSON parser pair, any metadata map, any context, any frame table, any hit list): the decision is Allow iff the metadata is "
+               "well formed, the tenant equal and (public or a principal/role/group matches), the three deny classes are told apart exactly; "
+               "Enforce returns exactly the readable hits in order ranked 1..n and is an error iff there is no usable tenant; Audit returns the "
+               "input unchanged; at search / vector search / adaptive search / ask every hit, citation and context fragment under Enforce is "
+               "readable and the context is rebuilt from those hits; Audit equals no-ACL. The clause 'Enforce without a tenant is an error' is "
+               "REFUTED for search and the vector searches on their early empty exits (finding F-C12-1) and proved outside that class.",
+    level_note="Trusted: Coq kernel + vm_compute; hand-written model Model/Acl.v (tied by the decide and apply streams); serde_json abstracted "
+               "as two arbitrary functions in the theorems, instantiated in the correspondence by the hand model Model/JsonStr.v (tied to the real "
+               "serde_json by the json stream); everything a call site does before its ACL stage (query parsing, Tantivy, vector index, RRF fusion, "
+               "re-ranking) is an input of the model (pre-stage outcome), build_context / adaptive cutoff are arbitrary functions; harness and translator. "
+               "The frame_by_id-error branch (deny) is modelled and proved but cannot be driven from the public API.",
+    n_quick=2400, n_thorough=20000,
+    rule="decide: n (metadata, context) pairs through verif_hooks::acl_decide -- five ACL keys with canonical / benign (case, Unicode-whitespace padding, "
+         "JSON-quoted, escapes) / broken (double-quoted, near-whitespace, broken quotes, non-ASCII, blank) scalars, lists as JSON / spaced / csv / trailing "
+         "comma / empty or non-string members / not an array / trailing garbage, dropped / blank / near-miss keys, unknown visibility, extra keys; contexts "
+         "with tenant present/absent/blank, subject, 0-3 roles and groups in the same forms; 24 fixed branch witnesses first. json: n/3 strings through "
+         "serde_json::from_str::<String> and ::<Vec<String>>. apply: one case = one search / vector-search request on a real memory (9 frames, lex+vec, "
+         "commit) under 11 contexts x Audit/Enforce, compared call by call with the model's ACL stage applied to the no-ACL hits. e2e (oracle only): "
+         "search, vec_search_with_embedding_acl, search_adaptive_acl, ask (Lex/Hybrid, context_only, adaptive) on n/400 memories: every frame id in hits, "
+         "citations, context fragments and every frame marker in context/answer text must be granted by the harness's own decision function; Audit must "
+         "equal no-ACL; Enforce without tenant must be an error. non-trivial = usable tenant and non-empty metadata (decide) / parse accepted (json) / "
+         "the no-ACL result holds at least one denied frame (apply, e2e Enforce) / non-empty result (Audit); distinct by BLAKE3 of the input",
+    trusted_base=["serde_json::from_str::<String> / ::<Vec<String>> are Section variables in every theorem (they hold for every parser pair); in the correspondence run they are the hand model Model/JsonStr.v, compared with the real serde_json on the json stream",
+                  "stages before the ACL stage of each call site (parse, Tantivy, vector index, fusion, re-ranking) are inputs of the model; build_context, SearchHit construction, find_adaptive_cutoff are arbitrary functions",
+                  "property oracle in the harness: own decision function written from the property text (Rust str::trim, serde_json::Value, ASCII lower-casing)"],
+    assumptions=["identifiers compare after trim, optional JSON-string unwrapping and ASCII case folding, as the code does (tenant 'Tenant-A ' = 'tenant-a'); this normalisation is part of the specification `reads_as`",
+                 "HashSet<String> is modelled as a list used only through membership",
+                 "finding F-C12-1 (no leak): Enforce without tenant returns Ok(empty) on the early exits of search / vec search / adaptive search"],
+    allowed_axioms=[],
+)
